@@ -1,6 +1,7 @@
 //! Kani proof harnesses for the properties C01..C19 of rust-random/rngs.
 //! The crates under test are path dependencies on /repo; the hooks they offer
 //! are compiled in with RUSTFLAGS="--cfg rngs_verif".
+#![recursion_limit = "512"]
 #![allow(clippy::all)]
 #![allow(dead_code, unused_macros, unused_imports)]
 
